@@ -192,7 +192,9 @@ def check_rewrite_scope(ctx: Ctx) -> None:
 
 def _segments_nodes_are_rawtext(ctx: Ctx, report: bool = False) -> bool:
     repo, prog = ctx.repo, ctx.prog
-    cs = repo.func("flowmark.transforms.doc_transforms:_collect_inline_segments")
+    from .. import anchors
+
+    cs = anchors.collect_segments_function(ctx)
     flow = prog.flow(cs)
     ok_all = True
     n = 0
@@ -492,7 +494,9 @@ def check_quotes_shape(ctx: Ctx) -> None:
            f"quote of the same kind (un-grouped literals found: {[chr(x) for x in lits]})", where(repo.module(mod), repo.module(mod).defs['QUOTE_PATTERN'].assigns[0]))
     # the content groups cannot contain a quote of their own kind (so pairs cannot nest / cross)
     # callback
-    ap = repo.func(f"{mod}:_apply_smart_quotes_to_text")
+    from .. import anchors
+
+    ap = anchors.apply_quotes_function(ctx)
     aflow = prog.flow(ap)
     cb = None
     for n, c in aflow.all_calls():
